@@ -539,7 +539,7 @@ class IRWithUses(ABC):
         return None
 
 
-_VALUE_NAME_PATTERN = re.compile(r"([A-Za-z_$.-][\w$.-]*)")
+_VALUE_NAME_PATTERN = re.compile(r"([A-Za-z_$.-][\w$.-]*)", re.ASCII)
 """Pattern to check if a name is valid for an SSAValue or Block."""
 
 _VALUE_NAME_SUFFIX_PATTERN = re.compile(r"(_\d+)$")
